@@ -69,6 +69,13 @@ struct Station {
     up: BTreeMap<IpAddr, PeerView>,
     pre: BTreeMap<RKey, RVal>,
     post: BTreeMap<RKey, RVal>,
+    /// Adj-RIB-Out post-policy per peer (RFC 8671)
+    out_post: BTreeMap<RKey, RVal>,
+    /// peers whose session came up while this connection was already being served (their
+    /// Adj-RIB-Out is monitored from the first advertisement on)
+    saw_peer_up_live: BTreeSet<IpAddr>,
+    /// set once a route-monitoring record or an end of the initial burst has been seen
+    past_initial_burst: bool,
     records: u64,
     connections: u64,
     /// (class, detail): C18/... and C19/... findings of the reader
@@ -144,6 +151,9 @@ impl Station {
             up: BTreeMap::new(),
             pre: BTreeMap::new(),
             post: BTreeMap::new(),
+            out_post: BTreeMap::new(),
+            saw_peer_up_live: BTreeSet::new(),
+            past_initial_burst: false,
             records: 0,
             connections: 0,
             findings: Vec::new(),
@@ -165,6 +175,9 @@ impl Station {
         self.up.clear();
         self.pre.clear();
         self.post.clear();
+        self.out_post.clear();
+        self.saw_peer_up_live.clear();
+        self.past_initial_burst = false;
     }
     fn wants_pre(&self) -> bool {
         matches!(self.policy, 0 | 2 | 4)
@@ -274,6 +287,7 @@ impl Station {
             0 => {
                 let Some((ptype, flags, addr, _asn, _id)) = self.per_peer(rec) else { return };
                 self.hit("record.route-monitoring");
+                self.past_initial_burst = true;
                 let body = &rec[48..];
                 let pdus = match split_pdus(body) {
                     Ok(p) => p,
@@ -313,10 +327,11 @@ impl Station {
                             continue;
                         }
                     };
-                    if ptype != 0 || adj_out {
+                    if ptype != 0 || (adj_out && !is_post) {
                         continue;
                     }
-                    let m = if is_post { &mut self.post } else { &mut self.pre };
+                    // Adj-RIB-Out post-policy (RFC 8671): what the router says it advertised to the peer
+                    let m = if adj_out { &mut self.out_post } else if is_post { &mut self.post } else { &mut self.pre };
                     for msg in msgs {
                         if let bgp::Message::Update(u) = msg {
                             match u {
@@ -421,6 +436,9 @@ impl Station {
                 // DUT receives add-path: it advertised "receive" (1) and the peer "send" (2)
                 let rx: BTreeSet<u32> = modes(sent, 1).intersection(&modes(recv, 2)).cloned().collect();
                 let tx: BTreeSet<u32> = modes(sent, 2).intersection(&modes(recv, 1)).cloned().collect();
+                if self.past_initial_burst {
+                    self.saw_peer_up_live.insert(addr);
+                }
                 self.up.insert(addr, PeerView { addpath_rx: rx, addpath_tx: tx });
             }
             2 => {
@@ -448,6 +466,9 @@ impl Station {
                 }
                 self.pre.retain(|k, _| k.0 != addr);
                 self.post.retain(|k, _| k.0 != addr);
+                self.out_post.retain(|k, _| k.0 != addr);
+                self.saw_peer_up_live.remove(&addr);
+                self.past_initial_burst = true;
             }
             _ => {
                 self.hit("record.other");
@@ -940,6 +961,30 @@ async fn run(case: Json, tol: Tolerate, prop: &'static str) -> Outcome {
                             return out;
                         }
                     }
+                }
+                // Adj-RIB-Out post-policy records against what the peer was really sent (its mirror of
+                // the session): the "intended data" of such a record is the advertisement itself.
+                // Judged for a station that was there before the session came up (one that arrives later
+                // is sent no Adj-RIB-Out snapshot) and monitors everything.
+                if !judge_pairing && s.policy == 4 && s.saw_peer_up_live.contains(&a) {
+                    let mirror: BTreeMap<RKey, RVal> = n.spk.mirror.iter().map(|(k, (attrs, nh))| ((a, k.0, k.1.clone(), k.2), rval(attrs, *nh))).collect();
+                    let got_o: BTreeMap<&RKey, &RVal> = s.out_post.iter().filter(|(k, _)| k.0 == a).collect();
+                    let want_o: BTreeMap<&RKey, &RVal> = mirror.iter().collect();
+                    // (an advertisement without a record is not a malformed record: the initial dump of a
+                    // session is not monitored at all, which neither C18 nor C19 speaks about)
+                    if let Some(k) = got_o.keys().find(|k| want_o.get(*k) != got_o.get(*k)).cloned() {
+                        let class = match want_o.get(k) {
+                            None => "C19/content/adj-rib-out/record-for-a-route-the-peer-does-not-hold",
+                            Some(_) => "C19/content/adj-rib-out/record-differs-from-what-was-sent",
+                        };
+                        let v = Violation::new(class, format!("op {} {}: station {} peer {}: {:?}: sent on the session {:?}, Adj-RIB-Out records say {:?}", opi, op.to_compact(), s.addr, a, k, want_o.get(k), got_o.get(k)));
+                        if out.violate(&tol, v) {
+                            out.vtime_ms = t.now();
+                            out.nontrivial = true;
+                            return out;
+                        }
+                    }
+                    out.hit("compare.adj-rib-out-against-the-wire");
                 }
             }
         }
